@@ -3,6 +3,8 @@ import re, random
 from props.common import ScenarioCheck
 from props import c04
 from specs import kernel as kspec
+from specs import handlers, tcp_stream
+from specs import udp as udpspec
 import intervene
 
 TRUSTED = c04.TRUSTED + [
@@ -31,11 +33,67 @@ def gen(seed, tier):
     bases = intervene.base_scenarios(seed + 1000, tier)
     return scns + throw_variants(bases, seed, tier)
 
+def touched_objects(impl):
+    """objects an intervention (an op in a step-hook context `s<k>` / `a<k>`) acted on, with the names
+    they were moved to and the sockets an intervention's accept names"""
+    t = set()
+    for ln in impl:
+        if not ln.startswith("C "): continue
+        tk = ln.split()
+        if len(tk) < 3 or not re.match(r"[sa]\d+$", tk[1]) or "." not in tk[2]: continue
+        obj, m = tk[2].split(".", 1)
+        t.add(obj)
+        if m in ("move", "accept", "accept_ep", "accept_new") and len(tk) > 3 and tk[3] != "=>": t.add(tk[3])
+    return t
+
+def _names(detail, objs):
+    return any(re.search(r"(?<![A-Za-z0-9_])%s(?![A-Za-z0-9_])" % re.escape(o), detail) for o in objs)
+
+def throw_propagates(impl):
+    """an exception thrown by a user handler leaves run(): after `C h<k> throw` no further handler runs
+    and the run reports the exception"""
+    fails = []; pending = None
+    for ln in impl:
+        tk = ln.split()
+        if not tk: continue
+        if tk[0] == "X": return fails
+        if tk[0] == "C" and len(tk) >= 3 and tk[2] == "throw" and tk[1] != "top" and pending is None:
+            pending = ln
+        elif pending is not None and tk[0] == "H":
+            fails.append(("throw_propagates", "handler %s ran after `%s`: the exception did not leave run()" % (tk[1], pending))); pending = None
+        elif pending is not None and tk[0] == "R":
+            if "throw" not in tk[1:]:
+                fails.append(("throw_propagates", "`%s` was followed by `%s`: run() returned normally instead of propagating the exception" % (pending, ln)))
+            pending = None
+    if pending is not None:
+        fails.append(("throw_propagates", "`%s` is not followed by any return of run()" % pending))
+    return fails
+
 def spec_c12(impl, scn):
-    # crashes / sanitizer reports are turned into violations by the framework itself; here: the
-    # rest of the simulation keeps behaving (clock discipline) after any intervention
+    # crashes / sanitizer reports are turned into violations by the framework itself; here:
+    # (1) the rest of the simulation keeps behaving: clock discipline after any intervention;
     f2, f3, st = kspec.check_lines(impl)
-    return [f for f in f2 if f[0] in ("monotone", "change_only_when_idle")]
+    fails = [f for f in f2 if f[0] in ("monotone", "change_only_when_idle")]
+    # (2) an exception thrown by a user handler propagates out of run();
+    fails += throw_propagates(impl)
+    # (3) "every other object keeps behaving according to its own properties": the statements of C04
+    # (handlers), C05 (TCP stream) and C08 (UDP datagrams), judged on the objects NO intervention
+    # touched - a failure that names a touched object (or a connection / datagram exchange one of
+    # whose ends was touched) is not this clause's business. After a thrown exception only
+    # never-inline / at-most-once are kept (the statement promises a simulation that is safe to
+    # destroy, not one that carries on unharmed).
+    touched = touched_objects(impl)
+    threw = any(l.startswith("C ") and l.split()[2:3] == ["throw"] for l in impl)
+    hf = handlers.check(impl, scn, skip_objs=touched, clauses=({"never_inline", "at_most_once"} if threw else None))
+    fails += [("bystander_" + c, d) for c, d in hf]
+    if not threw and not any(l.startswith("X ") for l in impl):
+        for c, d in tcp_stream.check(impl, scn):
+            if not _names(d, touched): fails.append(("bystander_tcp_" + c, d))
+        udp_touched = any(o[0] == "u" for o in touched)
+        for c, d in udpspec.check(impl, scn):
+            if c == "lost-without-reason" and udp_touched: continue
+            if not _names(d, touched): fails.append(("bystander_udp_" + c, d))
+    return fails
 
 def nontrivial(impl):
     return any(re.match(r"C [sa]\d+ ", l) or l.endswith(" throw") for l in impl) and sum(1 for l in impl if l.startswith("H ")) >= 2
